@@ -25,7 +25,7 @@ func init() {
 	property("C14",
 		"Static conformance of list handling: (a) a movement multiplier is accepted exactly in [1, 9999], must be an INT, and expands to exactly that many copies; (b) the movement emitter writes the terminator exactly once on every path and nothing after it; (c) the mart emitter writes '.align 2' first, stops at the first item equal to ITEM_NONE — tested on the very value it would write — and writes the terminator once, unconditionally, after the loop; items and their tokens are parallel; (d) list parsers append each identifier once and advance on every iteration. Integer tokens are decoded with ParseInt(literal, 0, 64) (C14.e); allocation sizes are bounded (C18.k); the expansion appends the step token itself (C14.a); Emit is total (C10.f).",
 		[]string{"go/ssa lowering is faithful to the source"},
-		"C14.a", "C14.b", "C14.c", "C14.d", "C06.b", "C12.f", "C12.g", "C13.c", "C12.a", "C10.f", "C19.f", "C18.k", "C14.e", "C01.h", "C13.a")
+		"C14.a", "C14.b", "C14.c", "C14.d", "C06.b", "C12.f", "C12.g", "C13.c", "C12.a", "C10.f", "C19.f", "C18.k", "C14.e", "C01.h", "C13.a", "C08.e")
 
 	register(&Rule{ID: "C12.f", Doc: "every parsed poryswitch case is recorded under its own name, whatever its content", Floor: 5, Run: c12f})
 	register(&Rule{ID: "C13.e", Doc: "no decision depends on how many tokens a substituted value was written with", Floor: 1, Run: c13e})
@@ -320,6 +320,10 @@ func c12c(c *Ctx) {
 			if strings.HasPrefix(k, "map:") && !strings.Contains(k, "[]token.Token") && !strings.Contains(k, "[]ast.Statement") && !strings.Contains(k, "*parser.impData") && !strings.Contains(k, "map[string]string") && !strings.Contains(k, "map[string]struct{}") && !strings.Contains(k, "map[string]bool") {
 				bad = append(bad, k)
 			}
+			// package-level state outlives the case as well
+			if strings.HasPrefix(k, "global:") {
+				bad = append(bad, k)
+			}
 		}
 		c.Check(len(bad) == 0 && n > 0, fn.Name()+"/effects", c.W.FuncPos(fn), "parsing the cases writes only the token window, scope stacks and font cache of the parser", fmt.Sprintf("parsing the cases may write %v: content of a case that is not selected could influence the output", bad))
 		// the maps written while parsing cases are maps made on the way (case tables, seen-sets):
@@ -337,6 +341,8 @@ func c12c(c *Ctx) {
 				case *ssa.MapUpdate:
 					if r := mapRootField(x.Map); r != "" {
 						held = append(held, g.Name()+" writes "+r+" at "+c.W.Pos(x.Pos()))
+					} else if gg := globalOrigin(x.Map); gg != nil {
+						held = append(held, g.Name()+" writes the package-level "+gg.Name()+" at "+c.W.Pos(x.Pos()))
 					}
 				case ssa.CallInstruction:
 					if calleeName(x) == "builtin:delete" {
@@ -365,12 +371,15 @@ func c12c(c *Ctx) {
 
 // mapRootField: the map value is loaded from a field of the Parser (p.constants, p.compileSwitches, ...).
 func mapRootField(m ssa.Value) string {
-	for i := 0; i < 4; i++ {
+	for i := 0; i < 8; i++ {
 		switch x := m.(type) {
 		case *ssa.UnOp:
 			if _, t, f, ok := fieldAddrOf(x.X); ok && typeIs(t, "parser", "Parser") {
 				return "Parser." + f
 			}
+			m = x.X
+		case *ssa.FieldAddr:
+			// a map inside an object the parser points to (p.cache.done)
 			m = x.X
 		case *ssa.Phi:
 			for _, e := range x.Edges {
@@ -585,6 +594,16 @@ func c13a(c *Ctx) {
 		}
 		c.Check(nUnit > 0, fn.Name()+"/sinks", c.W.FuncPos(fn), fmt.Sprintf("%d accumulation sites", n), "no accumulation site found any more")
 	}
+	// gathered parts are joined by single spaces (the way an argument written out is)
+	for _, fn := range sinkUnits {
+		for _, ci := range callsIn(fn) {
+			if calleeName(ci) != "strings.Join" {
+				continue
+			}
+			sep, isC := strConst(ci.Common().Args[1])
+			c.Check(isC && sep == " ", fmt.Sprintf("%s/join-separator@%d", fn.Name(), c.T(fn).callOrd[ci]), c.W.Pos(ci.Pos()), "parts are joined by one space", "gathered tokens are joined with "+pretty(c.term(fn, ci.Common().Args[1]))+" instead of a single space: a constant standing for several tokens would be spelled differently from the same tokens written out")
+		}
+	}
 	// what is stored is the accumulated string
 	type fieldSink struct{ fn, pkg, typ, field, want string }
 	for _, s := range []fieldSink{
@@ -605,7 +624,11 @@ func c13a(c *Ctx) {
 				return // AutoVar operand / implicit comparison value
 			}
 			n++
-			c.Check(strings.Contains(v, s.want), fmt.Sprintf("%s/%s.%s#%d", fn.Name(), s.typ, s.field, n), pos, s.typ+"."+s.field+" holds the substituted, joined value", s.typ+"."+s.field+" is "+pretty(v)+", which is not the joined result of the constant-substituted tokens")
+			okV := strings.Contains(v, s.want)
+			if okV && !strings.HasPrefix(s.want, "Literal=") && !strings.HasPrefix(v, s.want) && !strings.HasPrefix(strings.TrimPrefix(strings.TrimLeft(v, "("), `"( " ++ `), s.want) && !strings.HasPrefix(v, "phi(") {
+				okV = false // something applied to the read-out (ToUpper, TrimSpace, …)
+			}
+			c.Check(okV, fmt.Sprintf("%s/%s.%s#%d", fn.Name(), s.typ, s.field, n), pos, s.typ+"."+s.field+" holds the substituted, joined value", s.typ+"."+s.field+" is "+pretty(v)+", which is not the joined result of the constant-substituted tokens")
 		}
 		for _, st := range storesToField(fn, s.pkg, s.typ, s.field) {
 			v := c.term(fn, st.Val)
@@ -1247,6 +1270,77 @@ func c14d(c *Ctx) {
 		// clause does not apply; C13.a checks the element shape)
 		_ = n
 	}
+	// the list the list parser returns is the list that is kept: the thin layers between the list
+	// parsers and the statement / the hoisting record hand it on as it is
+	okOrigin := func(fn *ssa.Function, v ssa.Value, parserName string) bool {
+		seen := map[ssa.Value]bool{}
+		var ok func(v ssa.Value) bool
+		ok = func(v ssa.Value) bool {
+			if seen[v] {
+				return true
+			}
+			seen[v] = true
+			switch x := v.(type) {
+			case *ssa.Extract:
+				call, isCall := x.Tuple.(*ssa.Call)
+				return isCall && x.Index == 0 && callee(call) != nil && callee(call).Name() == parserName
+			case *ssa.Phi:
+				for _, e := range x.Edges {
+					if !ok(e) {
+						return false
+					}
+				}
+				return true
+			case *ssa.Const:
+				return x.IsNil()
+			case *ssa.Slice:
+				// the empty literal the field starts with
+				a, isA := x.X.(*ssa.Alloc)
+				if !isA {
+					return false
+				}
+				arr, isArr := a.Type().Underlying().(*types.Pointer).Elem().Underlying().(*types.Array)
+				return isArr && arr.Len() == 0
+			}
+			return false
+		}
+		return ok(v)
+	}
+	if fn := c.Fn("parser.Parser.parseMovesOperator"); fn != nil {
+		n := 0
+		for _, ret := range returnsOf(fn) {
+			if len(ret.Results) != 2 {
+				continue
+			}
+			if k, isC := ret.Results[1].(*ssa.Const); !isC || !k.IsNil() {
+				continue // an error return
+			}
+			n++
+			c.Check(okOrigin(fn, ret.Results[0], "parseMovementValue"), fmt.Sprintf("parseMovesOperator/list-handed-on-unchanged#%d", n), c.W.Pos(ret.Pos()), "moves() hands on the list parseMovementValue returned", "moves() returns "+pretty(c.term(fn, ret.Results[0]))+" instead of the list parseMovementValue returned: steps are added, dropped or rearranged between parsing and hoisting")
+		}
+		c.Check(n > 0, "parseMovesOperator/list-handed-on-unchanged", c.W.FuncPos(fn), "moves() has a successful return", "no successful return of parseMovesOperator found")
+	}
+	for _, w := range []struct{ fn, typ, field, parser string }{
+		{"parser.Parser.parseMovementStatement", "MovementStatement", "MovementCommands", "parseMovementValue"},
+		{"parser.Parser.parseMartStatement", "MartStatement", "TokenItems", "parseMartValue"},
+	} {
+		fn := c.Fn(w.fn)
+		if fn == nil {
+			continue
+		}
+		n, direct := 0, 0
+		for _, unit := range c.unitOf(fn) {
+			for _, st := range storesToField(unit.fn, "ast", w.typ, w.field) {
+				n++
+				okV := okOrigin(unit.fn, st.Val, w.parser)
+				if _, isExt := st.Val.(*ssa.Extract); isExt && okV {
+					direct++
+				}
+				c.Check(okV, fmt.Sprintf("%s/%s-is-the-parsed-list#%d", fn.Name(), w.field, n), c.W.Pos(st.Pos()), w.typ+"."+w.field+" is the list "+w.parser+" returned (or the empty list it starts with)", w.typ+"."+w.field+" is set to "+pretty(c.term(unit.fn, st.Val))+" instead of the list "+w.parser+" returned")
+			}
+		}
+		c.Check(direct > 0, fmt.Sprintf("%s/%s-is-the-parsed-list", fn.Name(), w.field), c.W.FuncPos(fn), "the parsed list is stored", "no store of "+w.parser+"'s result into "+w.typ+"."+w.field+" found")
+	}
 	nt := c.Fn("parser.Parser.nextToken")
 	for _, name := range []string{"parser.parseMartValue", "parser.parseMovementValue"} {
 		fn := c.Fn(name)
@@ -1694,6 +1788,13 @@ func c13e(c *Ctx) {
 					}
 				}
 				okG := len(extra) == 1 && strings.HasPrefix(extra[0], "+strings.Contains(") && strings.HasSuffix(extra[0], `," ")`)
+				if okG {
+					// ... at the very text that is wrapped
+					arg := strings.TrimSuffix(strings.TrimPrefix(extra[0], "+strings.Contains("), `," ")`)
+					if arg != xt && arg != c.term(fn, x) {
+						okG = false
+					}
+				}
 				c.Check(okG, key, c.W.Pos(st.Pos()), "grouped exactly when the substituted text contains a space", "the value "+pretty(xt)+" is wrapped in parentheses under "+fmt.Sprint(prettyAll(extra))+", expected exactly when the substituted text contains a space: a constant standing for several tokens must be grouped like the same tokens written out")
 			})
 		}
